@@ -7,14 +7,23 @@ Dimensions of a history (fields of a case, all optional):
          tuple | str | bound | scale;  sd: func (identity == equality) | bound (a bound method fetched
          again) | scale (callable instances with __eq__/__hash__) | mixed | picky (== with a foreign
          type raises)
-  kf     key universe: plain | fresh (an equal string built again for every use) | int (mk only)
+  kf     key universe: plain | fresh (an equal string built again for every use) | int | kinds (str, int, None,
+         float, frozenset, bytes keys in one dict) | numeq (keys equal across types: 1 / 1.0 / True, another
+         spelling at every use) (the last three mk only)
+  init   (mk) the arguments of the constructor: {"form": dict | pairs | iter | kwargs | pairs+kwargs | dict+kwargs,
+         "pairs": [[keys, v, r], ...]} (repeated keys, tuple keys = key tuples); routes ctor / fromkeys feed leading
+         single-key assignments through MultiKeyDict(dict) / MultiKeyDict.fromkeys; sd routes decorator
+         (keep_name=True) / decorator-rename (keep_name left to its default: renamed to the FIRST name)
   decoy  a second dict of the same class receives mirrored operations (sharing the value objects) and
          lookups between the steps; the dict under test must not notice
   view   "all" | "last" | {"every": n}: after which steps the whole state is observed
 and of an operation: rejected operations (`setu` unhashable value, `setbk` unhashable key in the tuple,
 `setns` non-string StrategyDict name, `bad` lookup / deletion with an unhashable operand) — whatever
 raises must leave every observable unchanged; `fork` (mk) continues on `MultiKeyDict(d)` and keeps
-watching the original."""
+watching the original;  `kc` = a call with a key argument of ANY shape: ["kc", kind, arg, (value,) uk] with kind
+set | get | del | k2k | v2k | in | dget (`d.get`), arg {"s": item} (a single object) or {"t": [items]} (a tuple of
+any length), item = a key name | None (an unhashable object of kind uk) | an int (sd: a hashable non-string),
+value = a class | None (unhashable).  The exception KIND is compared (TypeError = "Rejected" vs KeyError)."""
 import gc
 import itertools
 import json
@@ -51,14 +60,28 @@ RULE = ("exhaustive histories over small universes (mk: 3 keys x 2 values, tuple
         "ints, decoy dict sharing the value objects, copy-constructor forks, rejected operations) plus long "
         "histories (1000-4000 operations over 12 keys, light view after every step, full view every 97th; random histories "
         "of 20 / 40 operations: full view every 4th step) plus a "
-        "small malformed stream (empty key tuple); a case is non-trivial when at least one assignment succeeded and "
+        "small malformed stream (empty key tuple); plus key arguments of every shape for every operation: sweeps of "
+        "all non-mutating calls (get / del / key2keys / value2keys / in / dict.get / refused assignments) x (single item, "
+        "tuples of length 0..3 over two keys, an unhashable object and - sd - a non-string, at every position) after 19 (mk) / "
+        "17 (sd) prefixes followed by an ordinary assignment, and random calls (tuples of length <= 4) inside the random and long "
+        "histories; constructor arguments in six call forms with repeated and tuple keys, dict.fromkeys, the strategy "
+        "decorator with and without keep_name, keys of mixed kinds and keys equal across types (1 / 1.0 / True); the "
+        "iteration ORDER of the three dicts is compared with the model's association lists, list(d) / d.values() / d.keys() "
+        "must enumerate alike, iter(sd) in the order of sd.values(), sd.__doc__ must not raise, report len(sd) and name every name; "
+        "a case is non-trivial when at least one assignment succeeded and "
         "the final dict is non-empty or an exception was observed; distinct = distinct JSON history")
 TRUSTED = [
     "hand-written Lean model ALV/Model/C15.lean of lazy_core.MultiKeyDict / StrategyDict "
     "(modelled, not verified: Python dict = insertion-ordered association list; vars(self) = association "
     "list with the attribute `default` as a distinguished name; a KeyError / AttributeError leaves the model state "
-    "unchanged; an operand that cannot be hashed is a separate constructor of the operation type, raising where the "
-    "code first hashes it — half-way for `setBadKey` / `setRefused`, as coded today)",
+    "unchanged; an operand that cannot be hashed is a separate constructor of the operation type / a `KeyItem.unhashable` "
+    "item of a key argument, refused in the first statements of the method as the repaired code does (9cbe718, 735182a); "
+    "`Call.toOp` / `SCall.toOp` classify a key argument of any shape by reading those first statements; the association "
+    "lists keep Python's insertion order, which the tie compares exactly for all three dicts)",
+    "the inherited dict methods the classes rely on or that only LOOK (len, keys, values, items, `in`, get, fromkeys, the "
+    "dict(...) call inside the constructor) are in the model; the inherited MUTATORS (update, setdefault, pop, popitem, clear, "
+    "|=) and copy / | / == / repr / reversed act on the key-tuple storage only and are outside (histogram `inherited_from_dict` "
+    "records which is which and whether the class starts overriding one)",
     "observations coming out of hash containers are compared sorted; the order inside a key tuple is compared exactly",
     "equality vs identity: the Lean value type is the type of EQUALITY CLASSES (`==` of the Python values); the model never "
     "looks at which of several equal objects is stored, so 'the behaviour depends only on the classes' holds for the model "
@@ -71,12 +94,16 @@ TRUSTED = [
     "construction (a state is a value); the tie tests it on the real code",
 ]
 ASSUMPTIONS = [
-    "keys are non-tuple hashables of one type (tie: short strings, fresh equal strings, large ints), values hashables; "
-    "cross-type equal VALUES (1 == 1.0 == True) form ONE group and the property fixes d[k] only up to == : which of the "
-    "equal objects is handed back (the code: the most recently assigned one of the group) is not fixed and not compared; "
-    "cross-type equal KEYS are outside the tie",
+    "keys are non-tuple hashables (tie: short strings, fresh equal strings, large ints, str / int / None / float / frozenset / "
+    "bytes mixed in one dict, keys equal across types 1 == 1.0 == True), values hashables whose __hash__ agrees with "
+    "their __eq__ (two equal values with different hashes end up in two groups: Python's own dict contract is broken "
+    "first); cross-type equal VALUES and KEYS form ONE class and the property fixes d[k] / the tuple items only up to == : "
+    "which of the equal objects is handed back is not fixed and not compared.  A key that is itself a tuple (only reachable "
+    "as an item of a key tuple, `d[((1, 2), 3)] = v`) is outside: `d[(1, 2)]` then looks at the storage, not at the key",
     "key tuples are non-empty (the empty tuple is exercised separately, see known findings)",
-    "StrategyDict names are strings different from 'default' and from every attribute/method of the class; "
+    "StrategyDict names are strings different from 'default' and from every attribute/method of the class (a name "
+    "attribute shadows the method: after sd['items'] = f, sd.__doc__ raises; sd['_keys_dict'] = f breaks the dict; "
+    "sd['default'] = f; del sd['default'] raises AttributeError after removing the item); "
     "stored strategies are never the class-level default lambda; an assignment naming a non-string is expected to be "
     "refused as a whole (the code raises TypeError today, see known findings)",
     "an operation that raises (missing key, unhashable key / value, a value's own __hash__ or __eq__ raising) must leave "
@@ -85,9 +112,11 @@ ASSUMPTIONS = [
     "only the operations the property names — 'any sequence of item assignments (single key or key tuple), deletions and "
     "lookups' — (item assignment / deletion / lookup, key2keys, value2keys, len, iteration, keys/values/items views, the "
     "copy constructor MultiKeyDict(d); for StrategyDict attribute get/set/del, default, call, the strategy decorator).  "
-    "DECISION: the mutators inherited from dict (update, pop, popitem, clear, setdefault, and the lookups get / in / copy, "
-    "which see the key-TUPLE storage) are NOT overridden by the class, bypass the three maps and are outside the property; "
-    "the check records that they are still inherited (histogram `inherited_from_dict`) and never calls them",
+    "DECISION: the mutators inherited from dict (update, pop, popitem, clear, setdefault, |=) are NOT overridden by the "
+    "class, bypass the three maps (after d.clear() len(d) == 0 while list(d) still yields every value) and are outside the "
+    "property; the check records that they are still inherited (histogram `inherited_from_dict`) and never calls them.  The "
+    "inherited lookups `in` / get see the key-TUPLE storage (`'a' in d` is False for a bound key, `('a', 'b') in d` is True "
+    "for a complete key tuple): modelled and compared as they are",
 ]
 
 MANIFEST = {
@@ -98,17 +127,22 @@ MANIFEST = {
              "(+ attribute map + default), with equal results incl. KeyError / AttributeError / NotImplemented / rejection; "
              "corollaries: d[k] = last value assigned by an assignment that did not raise, one tuple per "
              "value in recency order, len/iteration count values, default = first stored strategy while it keeps a "
-             "name and re-chosen when it loses all; a rejected operation is a no-op; the assignments that today fail "
-             "half-way (unhashable key in the tuple, unhashable strategy) keep the maps coherent and refine the deletion "
-             "of the keys processed so far.  Tied to /repo by exhaustive small-universe, random and long histories over value "
-             "universes in which equality and identity differ."),
+             "name and re-chosen when it loses all; EVERY operation that raises (KeyError, AttributeError, TypeError for an "
+             "unhashable / non-string item at any position of a key argument of any shape, unhashable value) returns the state "
+             "it was given, in any state; histories of calls with arbitrary key arguments refine the abstract map; d.items() = "
+             "the specification's items, list(d) / d.values() / d.keys() enumerate in one order; the inherited `in` / get see "
+             "complete key tuples; the constructor collapses its arguments as dict(...) and yields a coherent dict; the code "
+             "before the repairs 9cbe718 / 735182a (half-way failing assignments) is kept as a regression model with theorems "
+             "saying what it destroyed.  Tied to /repo by exhaustive small-universe, random and long histories over value and key "
+             "universes in which equality, identity and type differ, incl. iteration order of the three dicts."),
     "note": ("Trusted: Lean kernel (axioms propext, Classical.choice, Quot.sound), the Python correspondence harness; the "
              "model (Python dict = insertion-ordered association list, vars(self) = association list) is hand written "
              "and validated against the code differentially after every step of every history, incl. the private maps "
              "_keys_dict / _inv_dict.  Values are modelled up to == (which equal object is stored is not modelled).  Outside "
-             "the theorems: the empty key tuple and the half-way failing assignments (recorded known findings), keys that "
-             "are themselves tuples, cross-type equal keys (1 == 1.0 == True), StrategyDict names colliding with "
-             "class attributes, and the inherited dict mutators (update, pop, clear, setdefault) which bypass the maps."),
+             "the theorems: the empty key tuple (recorded known finding), a replaced strategy whose == raises inside a "
+             "multi-name assignment (known finding), keys that are themselves tuples, values whose hash disagrees with ==, "
+             "StrategyDict names colliding with class attributes, and the inherited dict mutators (update, pop, popitem, clear, "
+             "setdefault, |=) which bypass the maps."),
     "technique": "Lean 4 invariant + forward-simulation (refinement) proof over an executable model; differential history correspondence",
 }
 
@@ -1614,7 +1648,7 @@ def _arg_shape(op):
         what = "nonstr@%s" % ("only" if len(kinds) == 1 else "first" if kinds[0] == "nonstr" else
                               "last" if kinds[-1] == "nonstr" and kinds.count("nonstr") == 1 else "inside")
     if op[1] == "set" and op[3] is None:
-        what += "+unhashable-value" if what != "ok" else "unhashable-value"
+        what = what + "+unhashable-value" if what != "ok" else "unhashable-value"
     dup = len(set(map(str, items))) < len(items)
     return "%s%s:%s" % ("single" if "s" in arg else "tuple%d" % min(len(items), 4), "/dup" if dup else "", what)
 
